@@ -544,4 +544,142 @@ theorem run_flow (evs : List Events) : ∀ (s : Sim), (∀ a ∈ s.pop, Clean a)
       rw [hrs, hr, List.append_assoc]; rfl
 
 
+/-! ### Allowed moves over whole runs: an agent only ever moves S → I → R → (dead, no compartment) -/
+
+/-- position of a flag valuation on the line S < I < R < cleared (anything else counts as 0) -/
+def rank (f : Flags) : Nat :=
+  match f.susceptible, f.infected, f.recovered with
+  | true, false, false => 0
+  | false, true, false => 1
+  | false, false, true => 2
+  | false, false, false => 3
+  | _, _, _ => 0
+
+theorem rank_stepState : ∀ (s : Flags) (g : StepStateG), Sir.partition s = true → rank s ≤ rank (stepState s g) := by decide
+theorem rank_setPrognoses : ∀ (s : Flags), Sir.partition s = true → s.susceptible = true → rank s ≤ rank (setPrognoses s ⟨true⟩) := by decide
+theorem rank_stepDie : ∀ (s : Flags), rank s ≤ rank (stepDie s ⟨true⟩) := by decide
+
+/-- what one step does to the agent at index `i` -/
+theorem demographics_get (ev : Events) (s : Sim) (i : Nat) (a : Agent) (h : s.pop[i]? = some a) :
+    ∃ a', (demographicsPhase ev s).pop[i]? = some a' ∧ a'.fl = a.fl ∧ a'.present = a.present ∧ a'.alive = a.alive := by
+  have hi : i < s.pop.length := (List.getElem?_eq_some_iff.mp h).1
+  have ha : s.pop[i] = a := (List.getElem?_eq_some_iff.mp h).2
+  simp only [demographicsPhase, List.getElem?_mapIdx]
+  rw [List.getElem?_append_left hi, h]
+  by_cases hb : i ∈ ev.background
+  · exact ⟨requestDeath s.ti a, by simp [hb], rfl, rfl, rfl⟩
+  · exact ⟨a, by simp [hb], rfl, rfl, rfl⟩
+
+theorem stepState_get (s : Sim) (i : Nat) (a : Agent) (h : s.pop[i]? = some a) (hg : Good a) :
+    ∃ a', (stepStatePhase s).pop[i]? = some a' ∧ rank a.fl ≤ rank a'.fl ∧ a'.present = a.present ∧ a'.alive = a.alive ∧
+      (a.present = false → a'.fl = a.fl) := by
+  simp only [stepStatePhase, mapActive, List.getElem?_map, h, Option.map_some]
+  by_cases hp : a.present = true
+  · refine ⟨stepStateAgent s.ti a, by simp [hp], ?_, (stepStateAgent_core s.ti a).1, (stepStateAgent_core s.ti a).2.1, ?_⟩
+    · have hpart := (hg hp).2
+      unfold stepStateAgent
+      by_cases hd : due a.tm.ti_dead s.ti = true
+      · simp only [hd, if_true, requestDeath]; exact rank_stepState _ _ hpart
+      · simp only [hd]; exact rank_stepState _ _ hpart
+    · intro hf; rw [hf] at hp; cases hp
+  · exact ⟨a, by simp [hp], Nat.le_refl _, rfl, rfl, fun _ => rfl⟩
+
+theorem infectAgent_rank (ti : Nat) (pop : List Agent) (call : List Inf) (hadm : callAdmissible pop call = true)
+    (i : Nat) (a : Agent) (h : pop[i]? = some a) (hg : Good a) :
+    rank a.fl ≤ rank (infectAgent ti call i a).fl ∧ (a.present = false → (infectAgent ti call i a).fl = a.fl) := by
+  unfold infectAgent
+  cases hf : findInf call i with
+  | none => simp only []; rw [setPrognoses_untargeted]; exact ⟨Nat.le_refl _, fun _ => rfl⟩
+  | some e =>
+      simp only []
+      obtain ⟨hu, hm⟩ := findInf_spec hf
+      have := List.all_eq_true.mp hadm e hm
+      rw [hu, h] at this
+      simp only [Bool.and_eq_true] at this
+      refine ⟨rank_setPrognoses _ (hg this.1).2 this.2, ?_⟩
+      intro hf'; rw [hf'] at this; cases this.1
+
+theorem infectFold_get (ti : Nat) (calls : List (List Inf)) : ∀ (pop : List Agent) (bad : Bool) (i : Nat) (a : Agent),
+    (calls.foldl (infectCall ti) (pop, bad)).2 = false → (∀ b ∈ pop, Good b) → pop[i]? = some a →
+    ∃ a', (calls.foldl (infectCall ti) (pop, bad)).1[i]? = some a' ∧ rank a.fl ≤ rank a'.fl ∧
+      a'.present = a.present ∧ a'.alive = a.alive ∧ (a.present = false → a'.fl = a.fl) := by
+  induction calls with
+  | nil => intro pop bad i a _ _ h; exact ⟨a, h, Nat.le_refl _, rfl, rfl, fun _ => rfl⟩
+  | cons c cs ih =>
+      intro pop bad i a hb hgood h
+      simp only [List.foldl_cons, infectCall] at hb ⊢
+      obtain ⟨hb0, _⟩ := infectFold_spec ti cs _ _ hb
+      simp only [Bool.or_eq_false_iff, Bool.not_eq_eq_eq_not, Bool.not_false] at hb0
+      have hadm := hb0.2
+      have hga : Good a := hgood a (List.mem_of_getElem? h)
+      have hget : (pop.mapIdx (infectAgent ti c))[i]? = some (infectAgent ti c i a) := by
+        simp [List.getElem?_mapIdx, h]
+      obtain ⟨a', h1, h2, h3, h4, h5⟩ := ih (pop.mapIdx (infectAgent ti c)) _ i (infectAgent ti c i a) hb
+        (infectCall_good ti pop c hadm hgood) hget
+      obtain ⟨r1, r2⟩ := infectAgent_rank ti pop c hadm i a h hga
+      obtain ⟨c1, c2, _⟩ := infectAgent_core ti c i a
+      refine ⟨a', h1, Nat.le_trans r1 h2, by rw [h3, c1], by rw [h4, c2], ?_⟩
+      intro hf
+      rw [h5 (by rw [c1]; exact hf), r2 hf]
+
+theorem die_get (s : Sim) (i : Nat) (a : Agent) (h : s.pop[i]? = some a) :
+    ∃ a', (diePhase s).pop[i]? = some a' ∧ rank a.fl ≤ rank a'.fl ∧ a'.present = a.present ∧
+      (a.present = false → a'.fl = a.fl ∧ a'.alive = a.alive) := by
+  simp only [diePhase, mapActive, List.getElem?_map, h, Option.map_some]
+  by_cases hp : a.present = true
+  · refine ⟨dieAgent s.ti a, by simp [hp], ?_, ?_, ?_⟩
+    · unfold dieAgent; by_cases hd : due a.pDead s.ti = true
+      · rw [if_pos hd]; exact rank_stepDie _
+      · rw [if_neg hd]; exact Nat.le_refl _
+    · unfold dieAgent; by_cases hd : due a.pDead s.ti = true
+      · rw [if_pos hd]
+      · rw [if_neg hd]
+    · intro hf; rw [hf] at hp; cases hp
+  · exact ⟨a, by simp [hp], Nat.le_refl _, rfl, fun _ => ⟨rfl, rfl⟩⟩
+
+/-- **Allowed moves, one step.** The agent at any index moves forward on S → I → R → (no compartment) or stays; an agent
+    that is no longer active is not touched at all. -/
+theorem simStep_monotone (s : Sim) (ev : Events) (hinv : ∀ a ∈ s.pop, Good a) (hb : (simStep s ev).bad = false)
+    (i : Nat) (a : Agent) (h : s.pop[i]? = some a) :
+    ∃ a', (simStep s ev).pop[i]? = some a' ∧ rank a.fl ≤ rank a'.fl ∧
+      (a.present = false → a'.fl = a.fl ∧ a'.present = false) := by
+  have hb3 : (infectPhase ev (stepStatePhase (demographicsPhase ev s))).bad = false := by rw [← simStep_bad]; exact hb
+  obtain ⟨a1, g1, f1, p1, _⟩ := demographics_get ev s i a h
+  have good1 := demographics_good ev s hinv
+  obtain ⟨a2, g2, r2, p2, _, z2⟩ := stepState_get (demographicsPhase ev s) i a1 g1 (good1 a1 (List.mem_of_getElem? g1))
+  have good2 := stepState_good _ good1
+  obtain ⟨a3, g3, r3, p3, _, z3⟩ := infectFold_get (stepStatePhase (demographicsPhase ev s)).ti ev.infections
+    (stepStatePhase (demographicsPhase ev s)).pop (stepStatePhase (demographicsPhase ev s)).bad i a2 hb3 good2 g2
+  obtain ⟨a4, g4, r4, p4, z4⟩ := die_get (infectPhase ev (stepStatePhase (demographicsPhase ev s))) i a3 g3
+  refine ⟨{ a4 with present := a4.present && a4.alive }, ?_, ?_, ?_⟩
+  · rw [simStep_pop, List.getElem?_map]
+    have : (midPop s ev)[i]? = some a4 := g4
+    rw [this]; rfl
+  · show rank a.fl ≤ rank a4.fl
+    rw [← f1]; exact Nat.le_trans r2 (Nat.le_trans r3 r4)
+  · intro hf
+    have h1 : a1.present = false := by rw [p1]; exact hf
+    have h2 : a2.present = false := by rw [p2]; exact h1
+    have h3 : a3.present = false := by rw [p3]; exact h2
+    have h4 : a4.present = false := by rw [p4]; exact h3
+    refine ⟨?_, by simp [h4]⟩
+    show a4.fl = a.fl
+    rw [(z4 h3).1, z3 h2, z2 h1, f1]
+
+/-- **Allowed moves over whole runs.** Along any run, for any events, every agent's position on
+    S → I → R → (no compartment) never decreases — nobody returns to susceptible, nobody leaves recovered except by
+    dying, the dead never regain a compartment — unless an inadmissible `set_prognoses` call is reported. -/
+theorem run_monotone (evs : List Events) : ∀ (s : Sim), (∀ a ∈ s.pop, Good a) → (run s evs).bad = false →
+    ∀ (i : Nat) (a : Agent), s.pop[i]? = some a →
+      ∃ a', (run s evs).pop[i]? = some a' ∧ rank a.fl ≤ rank a'.fl := by
+  induction evs with
+  | nil => intro s _ _ i a h; exact ⟨a, h, Nat.le_refl _⟩
+  | cons e es ih =>
+      intro s hinv hb i a h
+      have hb1 : (simStep s e).bad = false := run_bad_mono es _ hb
+      obtain ⟨a1, g1, r1, _⟩ := simStep_monotone s e hinv hb1 i a h
+      have hinv1 : ∀ b ∈ (simStep s e).pop, Good b := simStep_inv s e (fun _ => hinv) hb1
+      obtain ⟨a', g', r'⟩ := ih (simStep s e) hinv1 hb i a1 g1
+      exact ⟨a', g', Nat.le_trans r1 r'⟩
+
 end StarsimModel.SimCore
